@@ -4,6 +4,7 @@ import (
 	"fmt"
 	"go/token"
 	"go/types"
+	"sort"
 	"strings"
 
 	"golang.org/x/tools/go/ssa"
@@ -464,4 +465,79 @@ func valueOf(call ssa.CallInstruction) ssa.Value {
 		return v
 	}
 	return nil
+}
+
+// c13RefusalsBeforeCallback: the https service learns the fingerprint and the server name only inside the certificate
+// callback, which the vendored readClientHello calls after a few checks on the hello. A hello that one of those checks
+// turns down is reported without digest and server name. The checks that precede the callback today test the offered
+// version and the renegotiation extension directly (and the compression methods through a flag); the rule freezes that
+// set: no early return on the way to the callback may depend on any other field of the ClientHello. Moving a later
+// refusal (fallback SCSV, cipher suites, ...) in front of the callback takes the fingerprint away from exactly the hellos
+// it refuses.
+func c13RefusalsBeforeCallback(c *Ctx) {
+	p := c.P
+	const rule = "refusals-before-callback"
+	fn := p.Method("services/ja3/crypto/tls", "serverHandshakeState", "readClientHello")
+	gc := p.Method("services/ja3/crypto/tls", "Config", "getCertificate")
+	if !c.Anchor(fn != nil && gc != nil && fn.Blocks != nil, rule, "(*tls.serverHandshakeState).readClientHello and (*tls.Config).getCertificate") {
+		return
+	}
+	var cb ssa.Instruction
+	for _, call := range Calls(fn) {
+		if call.Common().StaticCallee() == gc {
+			cb = call
+		}
+	}
+	if !c.Anchor(cb != nil, rule, "the getCertificate call of readClientHello") {
+		return
+	}
+	allowed := map[string]bool{"vers": true, "secureRenegotiation": true}
+	// fields of the parsed hello a value is computed from
+	var fieldsOf func(v ssa.Value, depth int, seen map[ssa.Value]bool, out map[string]bool)
+	fieldsOf = func(v ssa.Value, depth int, seen map[ssa.Value]bool, out map[string]bool) {
+		if v == nil || depth > 8 || seen[v] {
+			return
+		}
+		seen[v] = true
+		if fa, ok := v.(*ssa.FieldAddr); ok {
+			if n := NamedOf(fa.X.Type()); n != nil && n.Obj().Name() == "clientHelloMsg" {
+				out[fieldNameOf(fa)] = true
+			}
+		}
+		if in, ok := v.(ssa.Instruction); ok {
+			for _, op := range in.Operands(nil) {
+				if op != nil && *op != nil {
+					fieldsOf(*op, depth+1, seen, out)
+				}
+			}
+		}
+	}
+	// returns that can be reached without having passed the callback
+	stop := func(in ssa.Instruction) bool { return in == cb }
+	reach := InstrReachFrom(fn, fn.Blocks[0].Instrs[0], nil, stop)
+	n := 0
+	for i, r := range Returns(fn) {
+		if !reach(r) && r.Block() != fn.Blocks[0] {
+			continue
+		}
+		rv := RetVals(r)
+		if len(rv) != 2 || IsNilConst(rv[1]) {
+			continue
+		}
+		n++
+		used := map[string]bool{}
+		for _, dc := range DomConds(r) {
+			fieldsOf(dc.V, 0, map[ssa.Value]bool{}, used)
+		}
+		var bad []string
+		for f := range used {
+			if !allowed[f] {
+				bad = append(bad, f)
+			}
+		}
+		sort.Strings(bad)
+		c.Check(len(bad) == 0, rule, fmt.Sprintf("readClientHello refusal[%d] before the callback", i), p.InstrPos(r), "depends only on the offered version / renegotiation extension (or on no hello field directly)",
+			"this refusal is reached before the certificate callback and depends on the ClientHello field(s) "+strings.Join(bad, ", ")+": the hellos it turns down never reach the callback in which the https service takes the JA3 digest and the server name, so their handshake-failed events carry empty fingerprint fields")
+	}
+	c.Floor(rule, 3, "refusals of readClientHello that precede the callback")
 }
